@@ -3,7 +3,7 @@
 # usage: tools/seedsweep.sh [parallel jobs, default 3]   (results: seeded/<label>/meta.json, summary on stdout)
 cd "$(dirname "$0")/.." || exit 2
 J=${1:-3}
-ls seeded | xargs -P "$J" -I{} sh -c 'p=$(echo {} | cut -c1-3); VERIF_SHARDS=${VERIF_SHARDS:-6} /venv/bin/python tools/seedtest.py $p seeded/{} --name {} --nosuite > /tmp/seedsweep_{}.log 2>&1'
+ls seeded | xargs -P "$J" -I{} sh -c 'p=$(echo {} | cut -c1-3); VERIF_SHARDS=${VERIF_SHARDS:-6} /venv/bin/python tools/seedtest.py $p "$PWD/seeded/{}" --name {} --nosuite > /tmp/seedsweep_{}.log 2>&1'
 /venv/bin/python - <<'PY'
 import json, glob, os
 rows = []
